@@ -28,46 +28,50 @@ func init() {
 // configuration structs and docs (key: package-relative type.field). A field may carry MORE
 // rules than listed; a listed rule that is missing or weakened is reported.
 var c17Constraints = map[string]string{
-	"cli.expvarConfig.Port":                              "required",
-	"components/guns/grpc.AnswLogConfig.Filter":          "omitempty,oneof=all warning error",
-	"components/guns/grpc/scenario.AnswLogConfig.Filter": "omitempty,oneof=all warning error",
-	"components/guns/http.AnswLogConfig.Filter":          "omitempty,oneof=all warning error",
-	"components/guns/http.AutoTagConfig.URIElements":     "min=1",
-	"components/guns/http.GunConfig.Target":              "endpoint,required",
-	"components/providers/grpc/grpcjson.Config.Limit":    "min=0",
-	"components/providers/grpc/grpcjson.Config.Passes":   "min=0",
-	"components/guns/grpc.GunConfig.Target":              "required",
-	"components/guns/grpc/scenario.GunConfig.Target":     "required",
-	"core/datasource.InlineConfig.Data":                  "required",
-	"core/provider.DecodeProviderConfig.Limit":           "min=0",
-	"core/provider.DecodeProviderConfig.Passes":          "min=0",
-	"core/schedule.InstanceStepConfig.From":              "min=0",
-	"core/schedule.InstanceStepConfig.To":                "min=0",
-	"core/schedule.InstanceStepConfig.Step":              "min=1",
-	"core/schedule.InstanceStepConfig.StepDuration":      "min-time=1ms",
-	"core/aggregator.EncoderAggregatorConfig.Sink":       "required",
-	"core/aggregator.ReporterConfig.SampleQueueSize":     "min=1",
-	"core/datasink.FileConfig.Path":                      "required",
-	"core/datasource.FileConfig.Path":                    "required",
-	"core/engine.Config.Pools":                           "required,dive",
-	"core/engine.InstancePoolConfig.Provider":            "required",
-	"core/engine.InstancePoolConfig.Aggregator":          "required",
-	"core/engine.InstancePoolConfig.NewGun":              "required",
-	"core/engine.InstancePoolConfig.StartupSchedule":     "required",
-	"core/engine.InstancePoolConfig.NewRPSSchedule":      "required",
-	"core/provider.DecodeProviderConfig.Source":          "required",
-	"core/provider.AmmoQueueConfig.AmmoQueueSize":        "min=1",
-	"core/schedule.ConstConfig.Ops":                      "min=0",
-	"core/schedule.ConstConfig.Duration":                 "min-time=1ms",
-	"core/schedule.LineConfig.From":                      "min=0",
-	"core/schedule.LineConfig.To":                        "min=0",
-	"core/schedule.LineConfig.Duration":                  "min-time=1ms",
-	"core/schedule.OnceConfig.Times":                     "min=1",
-	"core/schedule.StepConfig.From":                      "min=0",
-	"core/schedule.StepConfig.To":                        "min=0",
-	"core/schedule.StepConfig.Step":                      "min=1",
-	"core/schedule.StepConfig.Duration":                  "min-time=1ms",
-	"core/schedule.UnlimitedConfig.Duration":             "min-time=1ms",
+	"cli.expvarConfig.Port":                                              "required",
+	"components/guns/grpc.AnswLogConfig.Filter":                          "omitempty,oneof=all warning error",
+	"components/guns/grpc/scenario.AnswLogConfig.Filter":                 "omitempty,oneof=all warning error",
+	"components/guns/http.AnswLogConfig.Filter":                          "omitempty,oneof=all warning error",
+	"components/guns/http.AutoTagConfig.URIElements":                     "min=1",
+	"components/guns/http.GunConfig.Target":                              "endpoint,required",
+	"components/providers/grpc/grpcjson.Config.Limit":                    "min=0",
+	"components/providers/grpc/grpcjson.Config.Passes":                   "min=0",
+	"components/guns/grpc.GunConfig.Target":                              "required",
+	"components/guns/grpc/scenario.GunConfig.Target":                     "required",
+	"core/datasource.InlineConfig.Data":                                  "required",
+	"core/provider.DecodeProviderConfig.Limit":                           "min=0",
+	"core/provider.DecodeProviderConfig.Passes":                          "min=0",
+	"core/schedule.InstanceStepConfig.From":                              "min=0",
+	"core/schedule.InstanceStepConfig.To":                                "min=0",
+	"core/schedule.InstanceStepConfig.Step":                              "min=1",
+	"core/schedule.InstanceStepConfig.StepDuration":                      "min-time=1ms",
+	"core/aggregator.EncoderAggregatorConfig.Sink":                       "required",
+	"core/aggregator.ReporterConfig.SampleQueueSize":                     "min=1",
+	"core/aggregator/netsample.PhoutConfig.SampleQueueSize":              "min=0",
+	"components/providers/scenario/config.ScenarioConfig.Weight":         "min=0",
+	"components/providers/scenario/config.ScenarioConfig.MinWaitingTime": "min=0",
+	"components/providers/scenario/config.AmmoConfig.Scenarios":          "dive",
+	"core/datasink.FileConfig.Path":                                      "required",
+	"core/datasource.FileConfig.Path":                                    "required",
+	"core/engine.Config.Pools":                                           "required,dive",
+	"core/engine.InstancePoolConfig.Provider":                            "required",
+	"core/engine.InstancePoolConfig.Aggregator":                          "required",
+	"core/engine.InstancePoolConfig.NewGun":                              "required",
+	"core/engine.InstancePoolConfig.StartupSchedule":                     "required",
+	"core/engine.InstancePoolConfig.NewRPSSchedule":                      "required",
+	"core/provider.DecodeProviderConfig.Source":                          "required",
+	"core/provider.AmmoQueueConfig.AmmoQueueSize":                        "min=1",
+	"core/schedule.ConstConfig.Ops":                                      "min=0",
+	"core/schedule.ConstConfig.Duration":                                 "min-time=1ms",
+	"core/schedule.LineConfig.From":                                      "min=0",
+	"core/schedule.LineConfig.To":                                        "min=0",
+	"core/schedule.LineConfig.Duration":                                  "min-time=1ms",
+	"core/schedule.OnceConfig.Times":                                     "min=1",
+	"core/schedule.StepConfig.From":                                      "min=0",
+	"core/schedule.StepConfig.To":                                        "min=0",
+	"core/schedule.StepConfig.Step":                                      "min=1",
+	"core/schedule.StepConfig.Duration":                                  "min-time=1ms",
+	"core/schedule.UnlimitedConfig.Duration":                             "min-time=1ms",
 }
 
 type tagRule struct{ name, param string }
